@@ -6,6 +6,9 @@ import (
 
 	"github.com/go-spatial/geom"
 	"github.com/pdok/texel/snap"
+	"github.com/pdok/texel/tms20"
+	"verif/engine/ev"
+	"verif/engine/grid"
 	"verif/engine/lat"
 	"verif/engine/ref"
 )
@@ -152,6 +155,57 @@ func inIDs(res map[int][]geom.Polygon, ids []int) bool {
 	return true
 }
 
+// realGS: a block of a built-in set whose window origin is the pixel (of id z) containing (x, y)
+func realGS(set string, z int, sub int64, x, y float64) GridSpec {
+	tms, err := tms20.LoadEmbeddedTileMatrixSet(set)
+	if err != nil {
+		ev.HarnessError("%v", err)
+	}
+	g, err := grid.NewReal(set, tms, z, sub, [2]int64{0, 0})
+	if err != nil {
+		ev.HarnessError("%v", err)
+	}
+	ax := ref.FloorDiv(grid.Quantise(x)-g.MinX, g.ResDeepest)
+	ay := ref.FloorDiv(grid.Quantise(y)-g.MinY, g.ResDeepest)
+	return GridSpec{Kind: "real", Set: set, Deepest: z, Sub: sub, OffPx: [2]int64{ax, ay}}
+}
+
+// scopesRealBlocks: walks over pixel centres (spikes, zig-zags, repeated vertices) and small valid
+// polygons on blocks of the real grids, at anchors where the float <-> fixed-point round trip of
+// the pixel centres behaves differently (exact, off by one unit on one axis, on both axes)
+func scopesRealBlocks(thorough bool) []Scope {
+	k := func(q, t int) int {
+		if thorough {
+			return t
+		}
+		return q
+	}
+	type anchor struct {
+		set  string
+		z    int
+		x, y float64
+	}
+	anchors := []anchor{
+		{"NetherlandsRDNewQuad", 14, 155000, 463000}, {"NetherlandsRDNewQuad", 14, 20000.3, 380000.7}, {"NetherlandsRDNewQuad", 5, 20000.3, 380000.7},
+		{"WebMercatorQuad", 17, 550000.1, 6800000.2}, {"WebMercatorQuad", 12, 550000.1, 6800000.2}, {"WebMercatorQuad", 17, -20037000, -20037000},
+		{"EuropeanETRS89_LAEAQuad", 14, 4000000.3, 3200000.1}, {"NZTM2000Quad", 16, 1600000.2, 5400000.4},
+	}
+	if thorough {
+		anchors = append(anchors, anchor{"WorldMercatorWGS84Quad", 15, 550000.1, 6800000.2}, anchor{"UPSArcticWGS84Quad", 12, 2000000.1, 2000000.3},
+			anchor{"NetherlandsRDNewQuad", 16, 250000.5, 600000.5}, anchor{"WebMercatorQuad", 18, 19000000.3, 19000000.7})
+	}
+	var scs []Scope
+	for _, a := range anchors {
+		gs := realGS(a.set, a.z, 2, a.x, a.y)
+		name := fmt.Sprintf("%s-z%d@(%.0f,%.0f)", a.set, a.z, a.x, a.y)
+		scs = append(scs,
+			Scope{Name: "R-walk-2x2:" + name, GS: gs, Spec: lat.Spec{Points: lat.Centres(2, 2), MinK: 1, MaxK: k(6, 8), Repeats: true}, IDSets: [][]int{{a.z}}, Cfgs: allCfgs},
+			Scope{Name: "R-half-2:" + name, GS: gs, Spec: lat.Spec{Points: lat.Window(2, 2, 2), MaxK: k(3, 4), Valid: true}, IDSets: [][]int{{a.z}}, Cfgs: keepCfgs},
+		)
+	}
+	return scs
+}
+
 func scopesC05(thorough bool) []Scope {
 	k := func(q, t int) int {
 		if thorough {
@@ -170,7 +224,7 @@ func scopesC05(thorough bool) []Scope {
 		Scope{Name: "C-any-2x2", GS: synthGS(0, 2, [2]int64{7, 7}), Spec: lat.Spec{Points: lat.Window(2, 2, 2), MinK: 1, MaxK: k(4, 5), Repeats: true}, IDSets: one, Cfgs: allCfgs},
 		Scope{Name: "C-any-rings", GS: synthGS(0, 2, [2]int64{7, 7}), Spec: lat.Spec{Points: lat.Window(1, 1, 2), MinK: 1, MaxK: k(2, 3), Repeats: true, MaxHoles: 2, HoleMinK: 1, HoleMaxK: k(2, 3)}, IDSets: one, Cfgs: allCfgs},
 	)
-	return scs
+	return append(scs, scopesRealBlocks(thorough)...)
 }
 
 func init() {
